@@ -47,6 +47,20 @@ def slash_joints(rng):
                         "version": "1", "base_url": "https://a.example.com"}, "controllers": ctrls, "types": ["Item"]}]
 
 
+def controller_shapes(rng):
+    """One controller of every declaration shape the renderer knows, each with a visible, a hidden and a deprecated method."""
+    ctrls = []
+    for i, shape in enumerate(["deprecated_doc", "fields_before_embed", "grouped_decl", "bare", "plain"]):
+        bare = shape == "bare"
+        ctrls.append({"name": "SCtl%d" % i, "pkg": "ctl" if i % 2 == 0 else "ctlb", "tag": None if bare else "S%d" % i,
+                      "route": "" if bare else "/s%d" % i, "security": [], "descr": "" if bare else "Shape %s" % shape,
+                      "shape": shape,
+                      "methods": [meth("S%dVis" % i, "GET", "/s%dvis" % i), meth("S%dHid" % i, "POST", "/s%dhid" % i, hidden=True),
+                                  meth("S%dDep" % i, "DELETE", "/s%ddep" % i, deprecated=True)]})
+    return [{"config": {"schemes": ["sec1"], "default_security": None, "enforce": False, "engine": "gin", "title": "API",
+                        "version": "1", "base_url": "https://a.example.com"}, "controllers": ctrls, "types": ["Item"]}]
+
+
 def known_f13(project, obs):
     import common
     names = [c["name"] for c in project["controllers"]]
@@ -71,6 +85,6 @@ if __name__ == "__main__":
              "non-trivial = at least one operation emitted; distinct = distinct abstract projects",
         assumptions=["go/packages discovery and kin-openapi/libopenapi rendering are exercised, not modelled",
                      "controller struct names are unique within a generated project (see F13)"],
-        nontrivial=lambda p, ops: bool(ops), extra_cases=lambda rng: same_named_controllers(rng) + slash_joints(rng),
+        nontrivial=lambda p, ops: bool(ops), extra_cases=lambda rng: same_named_controllers(rng) + slash_joints(rng) + controller_shapes(rng),
         known_matcher=known_f13)
     sys.exit(res.finish())
